@@ -4,6 +4,7 @@ package zzverif
 // transport, replayed through the Lean model, shrunk and stored as a replay).
 
 import (
+	"crypto/sha256"
 	"encoding/hex"
 	"encoding/json"
 	"net/http"
@@ -59,6 +60,16 @@ type History struct {
 func (h *History) JSON() string {
 	b, _ := json.Marshal(h)
 	return string(b)
+}
+
+// bodyRepr keeps short bodies as they are and replaces long ones by prefix + digest + length
+// (same function on every side of a comparison, so identity is preserved)
+func bodyRepr(s string) string {
+	if len(s) <= 2048 {
+		return s
+	}
+	sum := sha256.Sum256([]byte(s))
+	return s[:48] + "#sha256=" + hex.EncodeToString(sum[:]) + "#len=" + strconv.Itoa(len(s))
 }
 
 func hx(s string) string {
